@@ -27,7 +27,7 @@ pub fn run(ctx: &Ctx) -> i32 {
     let prop: &'static str = if ctx.prop == "C13" { "C13" } else { "C17" };
     let engine = ReqEngine { prop };
     if let Some(path) = &ctx.replay {
-        return match read_replay(path).and_then(|rf| if rf.engine == "tlswire" { replay_one(ctx, &TlsPanics, &rf) } else { replay_one(ctx, &engine, &rf) }) {
+        return match read_replay(path).and_then(|rf| if rf.engine == "tlsstack" { crate::props::stack::replay(ctx, "C13", &rf) } else if rf.engine == "tlswire" { replay_one(ctx, &TlsPanics, &rf) } else { replay_one(ctx, &engine, &rf) }) {
             Ok(c) => c,
             Err(e) => {
                 eprintln!("replay failed: {e}");
@@ -37,6 +37,10 @@ pub fn run(ctx: &Ctx) -> i32 {
     }
     let mut total = Outcome::default();
     total.merge(run_generated(ctx, &engine, "grammar", strategy, ctx.cases(60_000, 2_000_000), 600));
+    if prop == "C13" {
+        // protocol selection through real TLS/ALPN
+        total.merge(crate::props::stack::leg(ctx, "C13"));
+    }
     if prop == "C17" {
         // TLS transport leg: the tlswire cases, only panics count here
         total.merge(run_generated(ctx, &TlsPanics, "tls-transport", crate::engines::tlswire::strategy, ctx.cases(20_000, 600_000), 300));
